@@ -529,7 +529,9 @@ fn apply_single_macro(
                 remaining = rest;
 
                 if macro_def.num_params == 0 {
-                    if !(args.len() == 1 && args[0].is_empty()) {
+                    // The parentheses may be on different lines which leaves a line ending between them
+                    let is_empty = args.len() == 1 && args[0].iter().all(|t| t.0.is_whitespace());
+                    if !is_empty {
                         return Err(PreprocessError::MacroExpectsDifferentNumberOfArguments);
                     }
                 } else if args.len() as u64 != macro_def.num_params {
